@@ -20,14 +20,23 @@ from fdsim import specgen
 PROPERTY = "C30"
 LEVEL = "fault_enumeration"
 EXHAUSTIVE_INNER = True
-T_MAX = {"quick": 16, "thorough": 40}
 PIPELINES = [[], ["everyk"], ["dtype"], ["everyk", "dtype"], ["dtype", "everyk"]]
-RUNS = {"quick": T_MAX["quick"] * len(PIPELINES), "thorough": T_MAX["thorough"] * len(PIPELINES)}
+
+
+def _table(tier):
+    """run index -> (T, pipeline).  quick: all five pipelines for T <= 8, the bare every-k filter (the index arithmetic itself)
+    up to T = 16; thorough: all five pipelines for every T <= 40.  (One configuration costs ~0.16 s of tracing + XLA compilation.)"""
+    if tier == "quick":
+        return [(T, p) for T in range(1, 9) for p in PIPELINES] + [(T, ["everyk"]) for T in range(9, 17)]
+    return [(T, p) for T in range(1, 41) for p in PIPELINES]
+
+
+RUNS = {"quick": len(_table("quick")), "thorough": len(_table("thorough"))}
 RUN_TIMEOUT_S = 900
 SHRINK_BUDGET = {"quick": 200, "thorough": 400}
 K_MAX = 8
 RULE = (
-    "run index -> (T, pipeline): T = 1..16 (quick) / 1..40 (thorough) x pipelines [], [everyk], [dtype], [everyk,dtype], [dtype,everyk]; inside a run ALL k = 1..8 and "
+    "run index -> (T, pipeline): pipelines [], [everyk], [dtype], [everyk,dtype], [dtype,everyk] x T = 1..8 plus [everyk] alone for T = 9..16 (quick) / all five x T = 1..40 (thorough); inside a run ALL k = 1..8 and "
     "ALL start = 0..T-1 are enumerated (complete inner space); value histories are seeded random arrays (1-2 named entries, float32/float64/complex64/complex128), "
     "dtype conversions only widening (f32->f64, c64->c128, f32->c64, f64->c128, identity). Valid read schedules: decompress is a pure function of (state, t) - the real "
     "reverse pass reads in descending t - so descending sweep, seeded random order and a restarted descending sweep are all valid and all used; a second write pass with a "
@@ -53,14 +62,14 @@ DTYPE_PAIRS = [["float32", "float64"], ["complex64", "complex128"], ["float32", 
 
 
 def generate(rng, tier, index):
-    n_p = len(PIPELINES)
-    T = index // n_p + 1
-    pipeline = PIPELINES[index % n_p]
+    table = _table(tier)
+    T, pipeline = table[index % len(table)]
+    pipeline = list(pipeline)
     if "dtype" in pipeline:
         in_dt, conv = DTYPE_PAIRS[int(rng.integers(0, len(DTYPE_PAIRS)))]
     else:
         in_dt, conv = ["float32", "float64", "complex64", "complex128"][int(rng.integers(0, 4))], None
-    n_keys = int(rng.integers(1, 3))
+    n_keys = 1 if rng.uniform() < 0.75 else 2
     shapes = {}
     for i in range(n_keys):  # interface records are (3, a, b) arrays in the solver
         shapes[f"pml{i}_{'EH'[i % 2]}"] = [3] + [int(rng.integers(1, 4)) for _ in range(2)]
